@@ -448,3 +448,199 @@ impl ZooMsg for LastUnit {
         }
     }
 }
+
+// every portable scalar type (signed ints and floats of both byte orders included)
+#[flat(sized = false, portable = true, default = true)]
+pub struct PortAll {
+    pub a: le::I16,
+    pub b: be::I16,
+    pub c: le::I32,
+    pub d: be::I32,
+    pub e: le::I64,
+    pub f: be::I64,
+    pub g: le::F32,
+    pub h: be::F32,
+    pub i: le::F64,
+    pub j: be::F64,
+    pub k: be::U16,
+    pub l: le::U64,
+    pub t: FlatVec<be::I16, be::U16>,
+}
+impl ZooMsg for PortAll {
+    const NAME: &'static str = "PortAll";
+    fn gen(g: &mut Gen) -> Val {
+        let mut f = vec![
+            Val::I(g.int(16, true)),
+            Val::I(g.int(16, true)),
+            Val::I(g.int(32, true)),
+            Val::I(g.int(32, true)),
+            Val::I(g.int(64, true)),
+            Val::I(g.int(64, true)),
+            Val::F(g.f32bits()),
+            Val::F(g.f32bits()),
+            Val::F(g.f64bits()),
+            Val::F(g.f64bits()),
+            Val::I(g.int(16, false)),
+            Val::I(g.int(64, false)),
+        ];
+        let n = g.len();
+        f.push(Val::L((0..n).map(|_| Val::I(g.int(16, true))).collect()));
+        Val::R(f)
+    }
+    fn emplace_val<'b>(bytes: &'b mut [u8], v: &Val) -> Result<&'b mut Self, Error> {
+        Self::new_in_place(
+            bytes,
+            PortAllInit {
+                a: le::I16::from(v.field(0).int() as i16),
+                b: be::I16::from(v.field(1).int() as i16),
+                c: le::I32::from(v.field(2).int() as i32),
+                d: be::I32::from(v.field(3).int() as i32),
+                e: le::I64::from(v.field(4).int() as i64),
+                f: be::I64::from(v.field(5).int() as i64),
+                g: le::F32::from(f32::from_bits(v.field(6).bits() as u32)),
+                h: be::F32::from(f32::from_bits(v.field(7).bits() as u32)),
+                i: le::F64::from(f64::from_bits(v.field(8).bits())),
+                j: be::F64::from(f64::from_bits(v.field(9).bits())),
+                k: be::U16::from(v.field(10).int() as u16),
+                l: le::U64::from(v.field(11).int() as u64),
+                t: flatty::vec::FromIterator(v.field(12).list().iter().map(|x| be::I16::from(x.int() as i16))),
+            },
+        )
+    }
+    fn read(&self) -> Val {
+        Val::R(vec![
+            Val::I(i16::from(self.a) as i128),
+            Val::I(i16::from(self.b) as i128),
+            Val::I(i32::from(self.c) as i128),
+            Val::I(i32::from(self.d) as i128),
+            Val::I(i64::from(self.e) as i128),
+            Val::I(i64::from(self.f) as i128),
+            Val::F(f32::from(self.g).to_bits() as u64),
+            Val::F(f32::from(self.h).to_bits() as u64),
+            Val::F(f64::from(self.i).to_bits()),
+            Val::F(f64::from(self.j).to_bits()),
+            Val::I(u16::from(self.k) as i128),
+            Val::I(u64::from(self.l) as i128),
+            rd_vec(&self.t, |x| Val::I(i16::from(*x) as i128)),
+        ])
+    }
+    fn tweak(&mut self, g: &mut Gen) {
+        if g.chance(1, 2) {
+            self.d = be::I32::from(g.int(32, true) as i32);
+        }
+        tweak_vec(&mut self.t, g, |g| be::I16::from(g.int(16, true) as i16));
+    }
+}
+
+// native signed integers and floats
+#[flat(sized = false, default = true)]
+pub struct Signed {
+    pub a: i8,
+    pub b: i16,
+    pub c: i32,
+    pub d: i64,
+    pub e: f32,
+    pub f: f64,
+    pub g: i128,
+    pub t: FlatVec<i64, u8>,
+}
+impl ZooMsg for Signed {
+    const NAME: &'static str = "Signed";
+    fn gen(g: &mut Gen) -> Val {
+        let mut f = vec![
+            Val::I(g.int(8, true)),
+            Val::I(g.int(16, true)),
+            Val::I(g.int(32, true)),
+            Val::I(g.int(64, true)),
+            Val::F(g.f32bits()),
+            Val::F(g.f64bits()),
+            Val::I(g.int(100, true)),
+        ];
+        let n = g.len();
+        f.push(Val::L((0..n).map(|_| Val::I(g.int(64, true))).collect()));
+        Val::R(f)
+    }
+    fn emplace_val<'b>(bytes: &'b mut [u8], v: &Val) -> Result<&'b mut Self, Error> {
+        Self::new_in_place(
+            bytes,
+            SignedInit {
+                a: v.field(0).int() as i8,
+                b: v.field(1).int() as i16,
+                c: v.field(2).int() as i32,
+                d: v.field(3).int() as i64,
+                e: f32::from_bits(v.field(4).bits() as u32),
+                f: f64::from_bits(v.field(5).bits()),
+                g: v.field(6).int(),
+                t: flatty::vec::FromIterator(v.field(7).list().iter().map(|x| x.int() as i64)),
+            },
+        )
+    }
+    fn read(&self) -> Val {
+        Val::R(vec![
+            Val::I(self.a as i128),
+            Val::I(self.b as i128),
+            Val::I(self.c as i128),
+            Val::I(self.d as i128),
+            Val::F(self.e.to_bits() as u64),
+            Val::F(self.f.to_bits()),
+            Val::I(self.g),
+            rd_vec(&self.t, |x| Val::I(*x as i128)),
+        ])
+    }
+    fn tweak(&mut self, g: &mut Gen) {
+        if g.chance(1, 2) {
+            self.b = g.int(16, true) as i16;
+        }
+        tweak_vec(&mut self.t, g, |g| g.int(64, true) as i64);
+    }
+}
+
+// unsized enums as the last field of the variants of another unsized enum
+#[flat(sized = false, default = true)]
+pub enum EnumInEnum {
+    #[default]
+    Z,
+    W(u8, TagStr),
+    V { a: u16, e: LastUnit },
+    U(Bool),
+}
+impl ZooMsg for EnumInEnum {
+    const NAME: &'static str = "EnumInEnum";
+    fn default_val() -> Option<Val> {
+        Some(Val::V(0, vec![]))
+    }
+    fn gen(g: &mut Gen) -> Val {
+        match g.weighted(&[1, 3, 3, 1]) {
+            0 => Val::V(0, vec![]),
+            1 => Val::V(1, vec![Val::I(g.int(8, false)), TagStr::gen(g)]),
+            2 => Val::V(2, vec![Val::I(g.int(16, false)), LastUnit::gen(g)]),
+            _ => Val::V(3, vec![Val::B(g.boolean())]),
+        }
+    }
+    fn emplace_val<'b>(bytes: &'b mut [u8], v: &Val) -> Result<&'b mut Self, Error> {
+        match v.tag() {
+            0 => Self::new_in_place(bytes, EnumInEnumInitZ),
+            1 => Self::new_in_place(bytes, EnumInEnumInitW(v.field(0).int() as u8, emp::<TagStr>(v.field(1)))),
+            2 => Self::new_in_place(bytes, EnumInEnumInitV { a: v.field(0).int() as u16, e: emp::<LastUnit>(v.field(1)) }),
+            _ => Self::new_in_place(bytes, EnumInEnumInitU(Bool::from(v.field(0).boolean()))),
+        }
+    }
+    fn read(&self) -> Val {
+        match self.as_ref() {
+            EnumInEnumRef::Z => Val::V(0, vec![]),
+            EnumInEnumRef::W(a, e) => Val::V(1, vec![Val::I(*a as i128), e.read()]),
+            EnumInEnumRef::V { a, e } => Val::V(2, vec![Val::I(*a as i128), e.read()]),
+            EnumInEnumRef::U(b) => Val::V(3, vec![rd_bool(b)]),
+        }
+    }
+    fn tweak(&mut self, g: &mut Gen) {
+        match self.as_mut() {
+            EnumInEnumMut::W(a, e) => {
+                *a = g.int(8, false) as u8;
+                e.tweak(g);
+            }
+            EnumInEnumMut::V { e, .. } => e.tweak(g),
+            _ => {}
+        }
+    }
+}
